@@ -168,6 +168,15 @@ type UDPConn struct {
 	// Received counts datagrams enqueued.
 	Received int
 	Sent     int
+	egress   net.IP
+}
+
+// SetEgressIP gives a wildcard-bound socket the source address its datagrams leave with (a real
+// host uses the address of the outgoing interface - not necessarily the one the peer wrote to).
+func (c *UDPConn) SetEgressIP(ip net.IP) {
+	c.mu.Lock()
+	c.egress = ip
+	c.mu.Unlock()
 }
 
 // ListenUDP binds a UDP socket. port 0 picks a free port.
@@ -309,6 +318,10 @@ func (c *UDPConn) WriteTo(b []byte, addr net.Addr) (int, error) {
 	}
 	hook := c.WriteHook
 	c.Sent++
+	src := c.local
+	if c.egress != nil {
+		src = &net.UDPAddr{IP: c.egress, Port: c.local.Port}
+	}
 	c.mu.Unlock()
 	if hook != nil {
 		if n, err, handled := hook(b, addr); handled {
@@ -318,7 +331,7 @@ func (c *UDPConn) WriteTo(b []byte, addr net.Addr) (int, error) {
 	if len(b) > MaxUDPPayload {
 		return 0, ErrMsgSize
 	}
-	c.net.route(c, c.local, dst, b)
+	c.net.route(c, src, dst, b)
 
 	return len(b), nil
 }
